@@ -1,6 +1,88 @@
-(* C08 — property theorems (stub) *)
-From MV Require Import C08.Model gen.Params_C08.
+(* C08 — property theorems only.  Each is closed by [exact] of a lemma proved in C08/Proofs*.v
+   and followed by Print Assumptions.  Constants, the footprint macro and the memory orders are
+   those re-extracted from the code on this run (gen/Params_C08.v). *)
+From MV Require Import C08.Model C08.ProofsSeq C08.ProofsDrain gen.Params_C08.
 Local Open Scope Z_scope.
-Theorem shm_constants_match : code_cache_line = CL /\ code_hdr_size = HDR.
-Proof. vm_compute. split; reflexivity. Qed.
-Print Assumptions shm_constants_match.
+
+(* tie of the literals used by the model to the headers: cache line size, header layout, and the
+   footprint macro MUGGLE_SHM_RINGBUF_CAL_BYTES_CACHELINE on the complete range 0 .. 4224 bytes
+   (a 64-line ring holds 4096) *)
+Theorem shm_constants_and_footprint_match :
+  code_cache_line = CL /\ code_hdr_size = HDR /\ code_off_nbytes = 0 /\ code_off_ncl = 4 /\
+  length code_cal_table = 4225%nat /\
+  forallb (fun kv => cal_cachelines (Z.of_nat (fst kv)) =? snd kv) (combine (seq 0 4225) code_cal_table) = true.
+Proof. vm_compute. repeat split; reflexivity. Qed.
+Print Assumptions shm_constants_and_footprint_match.
+
+(* Every message the writer commits is fetched exactly once, in commit order, with exactly the
+   committed length and bytes, and fetch reports nothing only when no committed message is
+   pending: along EVERY op list (all size sequences, all ring sizes) each fetch answers the head
+   of the ghost FIFO (appended at commit with the bytes then in memory, popped at r_move) or
+   None iff that FIFO is empty; the committed bytes have the committed length. *)
+Theorem shm_seq_refines_fifo : forall n ops, 1 <= n < 2147483648 ->
+  fifo_ok (hinit n) [] ops /\
+  (let h := fst (reach (hinit n) [] ops) in let q := snd (reach (hinit n) [] ops) in
+   h = fst (run (hinit n) ops) /\ snd (step h OFetch) = expected_fetch q /\
+   Forall (fun m => Z.of_nat (length (m_data m)) = m_nb m /\ 1 <= m_nb m) q).
+Proof. intros n ops H. split; [exact (seq_refines_fifo n ops H)|exact (seq_reachable_facts n ops H)]. Qed.
+Print Assumptions shm_seq_refines_fifo.
+
+(* The region handed to the writer, lines [a, a+need), lies inside the ring (leaving the last line
+   for a marker), holds the payload, is disjoint from every committed unread message and from the
+   wrap marker the reader may still look at. *)
+Theorem shm_alloc_no_overlap : forall n ops nb h' off, 1 <= n < 2147483648 ->
+  let h := fst (reach (hinit n) [] ops) in let q := snd (reach (hinit n) [] ops) in
+  step h (OAlloc nb) = (h', RAlloc (Some off)) ->
+  let a := wcur (hr h') in let need := cal_cachelines nb in
+  off = CL * a + HDR /\ 0 <= a /\ a + need <= n - 1 /\ off + nb <= CL * (a + need - 2) /\
+  Forall (fun m => m_at m + m_nc m <= a \/ a + need <= m_at m) q /\
+  (forall p, live_marker (hr h') q p -> a + need <= p).
+Proof. exact alloc_no_overlap. Qed.
+Print Assumptions shm_alloc_no_overlap.
+
+(* cursors, cached_remain and every offset the reader is given stay inside the data area *)
+Theorem shm_indices_in_range : forall n ops, 1 <= n < 2147483648 ->
+  let h := fst (run (hinit n) ops) in
+  0 <= wcur (hr h) <= n - 1 /\ 0 <= rcur (hr h) <= n - 1 /\ 0 <= crem (hr h) /\
+  wcur (hr h) + crem (hr h) <= n - 1 /\ Z.of_nat (length (mem (hr h))) = CL * n /\
+  (forall off nb bytes, snd (step h OFetch) = RFetch (Some (off, nb, bytes)) ->
+     exists l, off = CL * l + HDR /\ 0 <= l /\ 1 <= nb /\ off + nb <= CL * (l + cal_cachelines nb - 2) /\
+               l + cal_cachelines nb <= n).
+Proof. exact indices_in_range. Qed.
+Print Assumptions shm_indices_in_range.
+
+(* FULL STATEMENT of the property's clause (refuted below): a drained ring accepts every message of
+   up to half its size:   forall reachable h drained at p, 1 <= nb <= (CL/2)*n -> accepts h nb.
+   Proved part (P_partial): a ring drained at line p accepts a message iff its footprint is at most
+   max (n-1-p) (p-1) lines; hence it accepts every message outside the known class, and every
+   message of at most n/2 - 1 lines wherever it was drained. *)
+Theorem shm_drained_accepts_partial : forall n ops p nb, 1 <= n < 2147483648 ->
+  let h := fst (reach (hinit n) [] ops) in
+  wcur (hr h) = p -> rcur (hr h) = p -> 1 <= nb < 2147483648 ->
+  (accepts h nb <-> cal_cachelines nb <= Z.max (n - 1 - p) (p - 1)) /\
+  (nb <= (CL / 2) * n -> in_known_class n p nb = false -> accepts h nb) /\
+  (cal_cachelines nb <= n / 2 - 1 -> accepts h nb).
+Proof.
+  intros n ops p nb H h Hw Hr Hnb.
+  pose proof (reach_inv n H ops (hinit n) [] (init_inv n H)) as I. fold h in I.
+  split; [exact (proj1 (drained_alloc n H h _ p nb I Hw Hr Hnb))|]. split.
+  - intros Hh Hk. exact (drained_accepts_outside_class n H h _ p nb I Hw Hr ltac:(lia) ltac:(lia) Hk).
+  - intros Hs. exact (drained_accepts_small n H h _ p nb I Hw Hr Hnb Hs).
+Qed.
+Print Assumptions shm_drained_accepts_partial.
+
+(* KNOWN FINDING (P_refuted): ring of 8 lines, drained at line 4 = n/2 after one message was sent and
+   consumed; a message of 100 bytes (footprint 4 = n/2 lines, 100 <= 256 = half the ring's bytes) is
+   in the known class and is refused for ever: no number of retries and fetches changes that. *)
+Theorem shm_drained_half_refuted :
+  exists n pre p nb,
+    let h := fst (run (hinit n) pre) in
+    wcur (hr h) = p /\ rcur (hr h) = p /\ h_alloc h = None /\ snd (step h OFetch) = RFetch None /\
+    cal_cachelines nb <= n / 2 /\ 1 <= nb <= (CL / 2) * n /\ in_known_class n p nb = true /\
+    (forall ops, Forall (fun o => o = OAlloc nb \/ o = OFetch) ops ->
+       Forall (fun r => r = RAlloc None \/ r = RFetch None) (snd (run h ops))).
+Proof.
+  exists 8, wit_pre, 4, 100. destruct drained_half_witness as (A & B & C & D & E & F & G & K & L).
+  cbv zeta. repeat split; auto; try (vm_compute; (reflexivity || discriminate)).
+Qed.
+Print Assumptions shm_drained_half_refuted.
